@@ -137,7 +137,7 @@ def _(values: narwhals.Series, indices: Sequence[int]) -> narwhals.Series:
 
 @drop_rows.register
 def _(values: pandas.Series, indices: Sequence[int]) -> pandas.Series:
-    return values.drop(index=values.index[indices])
+    return values.iloc[numpy.delete(numpy.arange(len(values)), indices)]
 
 
 @drop_rows.register
